@@ -185,7 +185,7 @@ def run(ck):
                 qfields[fld["q"]] = c["name"]
     ck.require(len(qfields) >= 5, "expected >=5 PollableQueue members, found %d" % len(qfields))
     consumers = {}
-    for f in prog.library_funcs():
+    for f in prog.flat_library_funcs():
         for e in f.calls(lambda e: e.base_callee() in ("Pistache::Queue::popSafe", "Pistache::Queue::pop", "Pistache::PollableQueue::pop")):
             fld = (e.get("recv") or {}).get("f")
             if fld in qfields:
@@ -249,9 +249,9 @@ def run(ck):
     ck.require(qc and ec, "Queue / Queue::Entry class templates not found")
     head = [x for x in qc[0]["fields"] if x["name"] == "head"]
     nxt = [x for x in ec[0]["fields"] if x["name"] == "next"]
-    ck.ob("C13-R5", "type:Queue::head", bool(head) and head[0]["type"].replace(" ", "").startswith("std::atomic<"), "%s:%s" % (qc[0]["file"], head[0]["line"] if head else 0), "",
+    ck.ob("C13-R5", "type:Queue::head", bool(head) and re.match(r"^(std::)?atomic<", (head[0].get("ctype") or head[0]["type"]).replace(" ", "")) is not None, "%s:%s" % (qc[0]["file"], head[0]["line"] if head else 0), "",
           "declared %s" % (head[0]["type"] if head else "missing"), nontrivial=False)
-    ck.ob("C13-R5", "type:Queue::Entry::next", bool(nxt) and nxt[0]["type"].replace(" ", "").startswith("std::atomic<"), "%s:%s" % (ec[0]["file"], nxt[0]["line"] if nxt else 0), "",
+    ck.ob("C13-R5", "type:Queue::Entry::next", bool(nxt) and re.match(r"^(std::)?atomic<", (nxt[0].get("ctype") or nxt[0]["type"]).replace(" ", "")) is not None, "%s:%s" % (ec[0]["file"], nxt[0]["line"] if nxt else 0), "",
           "declared %s" % (nxt[0]["type"] if nxt else "missing"), nontrivial=False)
     for f in prog.find("Pistache::Queue::pop", 2):
         ck.touch(f)
